@@ -16,6 +16,8 @@ OVERLAY = {
     HS + "/zz_c19_mut_verif_test.go": "harness/overlay/httpauth/c19_mut_verif_test.go",
     HS + "/zz_c19_fmt_verif_test.go": "harness/overlay/httpauth/c19_fmt_verif_test.go",
     HS + "/zz_c19_cli_verif_test.go": "harness/overlay/httpauth/c19_cli_verif_test.go",
+    HS + "/zz_c19_e2e_verif_test.go": "harness/overlay/httpauth/c19_e2e_verif_test.go",
+    HS + "/zz_c19_hook_verif.go": "harness/overlay/httpauth/c19_hook_verif.go",
 }
 
 
